@@ -71,8 +71,13 @@ def run_history(ctx: Ctx, mats, m, k, hist, max_norm):
     seg = 0
     for pos, h in enumerate(hist):
         if h == "r":
-            main.reset()
-            plain.reset()
+            try:
+                main.reset()
+                plain.reset()
+            except Exception as e:  # noqa: BLE001
+                ctx.violation(f"reset() raised {type(e).__name__} at position {pos} of history {list(hist)} (a reset is legal at any "
+                              f"time, also before the first call)", {**rp, "position": pos})
+                return False
             shadow = NashMTL(n_tasks=m, max_norm=max_norm, update_weights_every=k, optim_niter=niter)
             seg += 1
             continue
@@ -153,9 +158,9 @@ def main(ctx: Ctx):
     symbols = [0, 1, 2, "r"]
     for m in ((2, 3) if quick else (2, 3, 4)):
         mats = alphabet(rng, m)
-        hists = [h for n in range(1, L + 1) for h in itertools.product(symbols, repeat=n) if h[0] != "r"]
+        hists = [h for n in range(1, L + 1) for h in itertools.product(symbols, repeat=n) if any(x != "r" for x in h)]
         if quick:
-            hists = rng.sample(hists, 18)
+            hists = rng.sample(hists, 16) + [("r", 0), ("r", "r", 1, 0)]      # reset() before any call is legal too
         for k in ((1, 2, 3) if quick else (1, 2, 3, 4)):
             for h in hists:
                 mx = rng.choice([1.0, 1.0, 0.3, 5.0])
